@@ -155,8 +155,23 @@ class TlcResult:
             pass
         self.generated = int(m.group(1)) if m else 0
         self.distinct = int(m.group(2)) if m else 0
-        self.tuples = [parse_tuple(line) for line in out.splitlines() if line.startswith("<<")]
-        self.tuples = [t for t in self.tuples if t is not None]
+        self.tuples = []
+        buf = None
+        for line in out.splitlines():
+            if buf is None:
+                if line.startswith("<<"):
+                    buf = line
+                else:
+                    continue
+            else:
+                buf += " " + line.strip()
+            if buf.count("<<") <= buf.count(">>"):
+                t = parse_tuple(buf)
+                if t is not None:
+                    self.tuples.append(t)
+                buf = None
+            elif len(buf) > 200000:
+                buf = None
         self.error = (
             "Error:" in out or "error occurred" in out.lower() or rc not in (0,)
         )
